@@ -41,6 +41,20 @@ def run(prop, tier, seed):
             if tier != "quick" or i % 4 == 0:
                 extra["trace"] = 8
             cases.append(schedlib.with_drive(c, i, d, extra))
+    # compositional payloads (spec/props/C08deep.tla with Via = "send"): a mutable array at the end of every path of value
+    # constructors is sent, both ends mutate their value afterwards; the reader's copy is independent of the writer's
+    deep, dres = vlib.gen_enumerate(prop, os.path.join(PROPS, "C08deep.tla"),
+                                    cfg=os.path.join(PROPS, "C09deep.cfg" if tier == "quick" else "C09deep_thorough.cfg"))
+    cov["compositional_payload_programs"] = len(deep)
+    for j, c in enumerate(deep):
+        for i, d in enumerate(d_tasks):
+            if (i + j) % (10 if tier == "quick" else 4) == 0:
+                extra = {"maxsteps": 60000, "quarantine": (i + j) % 2 == 0}
+                gc = plans[k % len(plans)]
+                k += 1
+                if gc.get("mode") != "native":
+                    extra["gc"] = gc
+                cases.append(schedlib.with_drive(c, i, d, extra))
     obs, _ = vlib.run_harness(cases, wd, jobs=12, timeout=40)
     for c, o in zip(cases, obs):
         mism = vlib.compare(c["expect"], o)
